@@ -230,7 +230,85 @@ fn check_family(f: &FamGrammar, maxlen: usize, res: &mut ShardResult) {
     let _ = std::fs::remove_file(&l.so_path);
 }
 
+/// G6: a field inside a hidden rule that is left-recursive through a cycle of L hidden rules (L = 1..4), so that the
+/// quantity of the field on the visible parent ("multiple") is only reached after several passes of the fixed point:
+///   a -> r_L '.'      r_1 -> r_L F t_1 | F t_1      r_i -> r_(i-1) t_i   (i = 2..L)      F = f:x | f:x?  | f:x g:y
+/// crossed with: anonymous token t_i at every level or not, hidden rules declared before or after `a`, in chain order,
+/// reverse order or rotated, and the field shape.
+/// Sentences: k = 1..3 rounds of the cycle, with and without the optional part.
+fn g6() -> Vec<(String, crate::gram::G, Vec<String>)> {
+    use crate::gram::*;
+    let toks = [";", ",", "!", "#"];
+    let mut out = vec![];
+    for l in 1..=4usize { for with_tokens in [true, false] { for hidden_first in [false, true] { for shape in 0..3usize { for order in 0..3usize {
+        if l == 1 && order > 0 { continue; }
+        let name = format!("g6_{}_{}_{}_{}_{}", l, with_tokens as u8, hidden_first as u8, shape, order);
+        let fpart = || -> Value { match shape { 0 => field("f", sym("x")), 1 => seq(vec![field("f", sym("x")), opt(field("g", sym("y")))]), _ => seq(vec![field("f", sym("x")), field("g", sym("y"))]) } };
+        let t = |i: usize| -> Vec<Value> { if with_tokens || i == 0 { vec![s(toks[i])] } else { vec![] } };
+        let rname = |i: usize| format!("_r{}", i + 1);
+        let mut hidden: Vec<(String, Value)> = vec![];
+        let mut first_a = vec![sym(&rname(l - 1)), fpart()]; first_a.extend(t(0));
+        let mut first_b = vec![fpart()]; first_b.extend(t(0));
+        hidden.push((rname(0), choice(vec![seq(first_a), seq(first_b)])));
+        for i in 1..l { let mut v = vec![sym(&rname(i - 1))]; v.extend(t(i)); hidden.push((rname(i), if v.len() == 1 { v.pop().unwrap() } else { seq(v) })); }
+        // declaration order of the hidden rules: along the chain, against it, or rotated (r_1, r_L, ..., r_2): the number of
+        // passes the fixed point needs depends on it
+        match order { 1 => hidden.reverse(), 2 => { let tail: Vec<_> = hidden.drain(1..).rev().collect(); hidden.extend(tail); } _ => {} }
+        let mut g = G::new(&name);
+        let parent = ("a".to_string(), seq(vec![sym(&rname(l - 1)), s(".")]));
+        // the first rule is the start rule: keep `a` reachable as the start through a wrapper when the hidden rules come first
+        g = g.rule("top", sym("a"));
+        if hidden_first { for (n, r) in &hidden { g = g.rule(n, r.clone()); } g = g.rule(&parent.0, parent.1.clone()); }
+        else { g = g.rule(&parent.0, parent.1.clone()); for (n, r) in &hidden { g = g.rule(n, r.clone()); } }
+        g = g.rule("x", s("x")).rule("y", s("y"));
+        let mut docs = vec![];
+        for k in 1..=3usize { for with_y in [false, true] {
+            if (shape == 0 && with_y) || (shape == 2 && !with_y) { continue; }
+            let mut d = String::new();
+            for _ in 0..k { d.push_str("x "); if with_y { d.push_str("y "); } for i in 0..l { if with_tokens || i == 0 { d.push_str(toks[i]); d.push(' '); } } }
+            d.push('.');
+            docs.push(d);
+        } }
+        out.push((name, g, docs));
+    } } } } }
+    out
+}
+
+fn check_g6(name: &str, g: &crate::gram::G, docs: &[String], res: &mut ShardResult) -> Vec<String> {
+    let mut msgs = vec![];
+    crate::case!("{}", json!({"part": "g6", "grammar_id": name}));
+    let gj = g.to_json();
+    let Ok((c_code, nt_json)) = generate_in_dir(name, &gj) else { res.count("rejected_by_generator", 1); return msgs };
+    let spec = LangSpec { name: g.name.clone(), grammar_json: gj, scanner_c: None };
+    let l = match lang::build_from_c(&g.name, &c_code, &spec, OptLevel::default()) { Ok(l) => l, Err(e) => { res.violation("generated-parser-does-not-compile", format!("{}", e), json!({"part": "g6", "grammar_id": name})); return msgs; } };
+    res.states += 1;
+    res.count("g6_grammars", 1);
+    let nt = NodeTypes::parse(&nt_json);
+    let mut parser = Parser::new();
+    parser.set_language(&l.language).unwrap();
+    for d in docs {
+        crate::case!("{}", json!({"part": "g6", "grammar_id": name, "text": d}));
+        let tree = parser.parse(d, None).unwrap();
+        res.transitions += 1;
+        let xt = XTree::build(&tree);
+        if xt.root_has_error() { res.count("g6_sentences_with_error", 1); continue; }
+        res.nontrivial += 1;
+        for (fp, m) in validate_tree(&nt, &l.language, &xt) {
+            let what = format!("{} on {:?}: {} [tree {}]", name, d, m, xt.sexp(&l.language));
+            msgs.push(format!("{}: {}", fp, what));
+            res.violation(&fp, what, json!({"part": "g6", "grammar_id": name, "grammar": g.to_value(), "text": d}));
+        }
+    }
+    let _ = std::fs::remove_file(&l.so_path);
+    msgs
+}
+
 pub fn worker(ctx: &Ctx, res: &mut ShardResult) {
+    for (i, (name, g, docs)) in g6().iter().enumerate() {
+        if !ctx.mine(i + 5) { continue; }
+        check_g6(name, g, docs, res);
+        if res.too_many() { return; }
+    }
     let (n1, n2, n3, _) = crate::checks::c03::params(&ctx.tier);
     for (i, f) in family_list(&ctx.tier).iter().enumerate() {
         if !ctx.mine(i) { continue; }
@@ -264,4 +342,36 @@ pub fn worker(ctx: &Ctx, res: &mut ShardResult) {
     }
 }
 
-pub fn replay(case: &Value) -> Vec<String> { vec![format!("rerun ./vf check C16 quick (case {})", case)] }
+/// Re-run one recorded case: the whole grammar of a family / G6 case (it is cheap), or one zoo document.
+pub fn replay(case: &Value) -> Vec<String> {
+    let case = if case.get("kind").and_then(|k| k.as_str()) == Some("crash") { &case["case"] } else { case };
+    let mut r = ShardResult::new();
+    match case["part"].as_str().unwrap_or("") {
+        "g6" => {
+            let id = case["grammar_id"].as_str().unwrap_or("");
+            let Some((name, g, docs)) = g6().into_iter().find(|(n, _, _)| n == id) else { return vec![format!("unknown G6 grammar {}", id)] };
+            check_g6(&name, &g, &docs, &mut r);
+        }
+        "family" => {
+            let id = case["grammar_id"].as_str().unwrap_or("");
+            let Some(f) = family_list("thorough").into_iter().find(|f| f.id == id) else { return vec![format!("unknown family grammar {}", id)] };
+            let (n1, n2, n3, _) = crate::checks::c03::params("quick");
+            let n = match f.kind { "G1" => n1, "G2" => n2, "G4" => 5.min(n1.max(4)), _ => n3 };
+            check_family(&f, n, &mut r);
+        }
+        "zoo" => {
+            let Some(z) = crate::zoo::by_name(case["lang"].as_str().unwrap_or("")) else { return vec!["unknown zoo language".into()] };
+            let (c_code, nt_json) = generate_in_dir(z.name, &z.spec.grammar_json).expect("zoo generates");
+            let l = lang::build_from_c(z.name, &c_code, &z.spec, OptLevel::default()).expect("zoo compiles");
+            let nt = NodeTypes::parse(&nt_json);
+            let d = crate::util::bytes_from_json(&case["text"]);
+            let mut parser = Parser::new();
+            parser.set_language(&l.language).unwrap();
+            let xt = XTree::build(&parser.parse(&d, None).unwrap());
+            println!("tree: {}", xt.sexp(&l.language));
+            return validate_tree(&nt, &l.language, &xt).into_iter().map(|(f, m)| format!("{}: {}", f, m)).collect();
+        }
+        _ => return vec![format!("not a C16 case: {}", case)],
+    }
+    r.violations.iter().map(|v| format!("{}: {}", v.fingerprint, v.what)).collect()
+}
